@@ -24,7 +24,8 @@ def prepare_first(chk, db, rule):
             continue
         seen.add((f['file'], f['pat']['l']))
         where = facts.site(f)
-        paths = symx.paths_of(db, f, lambda c, e: False)
+        # helpers of SerializerCommon itself (e.g. an extracted GetSize) are part of the function
+        paths = symx.paths_of(db, f, lambda c, e: c.get('rec') == 'nop::SerializerCommon')
         why = []
         for p in paths:
             ev = [e for e in p.events if e.kind == 'call']
@@ -49,8 +50,20 @@ def prepare_first(chk, db, rule):
             if key in seen:
                 continue
             seen.add(key)
-            cs = [c for c in ir.calls(f['body']) if ir.callee_name(c) in ('Write', 'Size')]
-            ok = len(cs) == 1 and (db.callee(f, cs[0]) or {}).get('rec', '').startswith('nop::SerializerCommon' if f['n'] == 'Write' else 'nop::Encoding<')
+            def reaches(g, call, depth=0):
+                cal = db.callee(g, call)
+                if cal is None:
+                    return False
+                if f['n'] == 'Write' and cal.get('rec') == 'nop::SerializerCommon' and cal['n'] == 'Write':
+                    return True
+                if f['n'] == 'GetSize' and cal.get('rect') == 'nop::Encoding' and cal['n'] == 'Size':
+                    return True
+                if 'body' in cal and depth < 3 and cal.get('rec') == 'nop::SerializerCommon':
+                    inner = [c for c in ir.calls(cal['body']) if (c.get('callee') or {}).get('nop')]
+                    return len(inner) == 1 and reaches(cal, inner[0], depth + 1)
+                return False
+            cs = [c for c in ir.calls(f['body']) if (c.get('callee') or {}).get('nop')]
+            ok = len(cs) == 1 and reaches(f, cs[0])
             chk.decide(ok, rule, facts.site(f), 'Serializer::%s forwards to %s' % (f['n'], 'SerializerCommon::Write' if f['n'] == 'Write' else 'Encoding<T>::Size'),
                        function=ir.fn_label(f))
 
